@@ -179,8 +179,48 @@ def install():
             setattr(cls, attr, functools.partialmethod(wrapped[val.func], *val.args, **val.keywords))
 
 
+HYPER = []
+
+
+def install_hyper():
+    """record every finished HyperOptimizer search of the repository's tests: the scores of all trials, the winner's
+    recorded figures and the figures of the tree handed back (C08)"""
+    from cotengra.hyperoptimizers import hyper
+    cls = hyper.HyperOptimizer
+    orig = cls._search
+    if getattr(orig, "_verif_wrapped", False):
+        return
+
+    @functools.wraps(orig)
+    def _search(self, inputs, output, size_dict):
+        before = len(self.scores)
+        out = orig(self, inputs, output, size_dict)
+        try:
+            if len(HYPER) < 400 and threading.current_thread() is threading.main_thread():
+                b = self.best
+                rec = {"test": _current["test"], "cls": type(self).__name__, "N": len(inputs), "max_repeats": int(self.max_repeats),
+                       "before": before, "scores": [float(x) for x in self.scores], "best_score": float(b["score"]),
+                       "has_tree": "tree" in b, "max_time": repr(getattr(self, "max_time", None)),
+                       "compressed": bool(getattr(self, "compressed", False))}
+                if "tree" in b:
+                    tree = b["tree"]
+                    rec["recorded"] = {k: b.get(k) for k in ("flops", "write", "size")}
+                    rec["complete"] = bool(tree.is_complete())
+                    rec["same_net"] = tuple(map(tuple, tree.inputs)) == tuple(map(tuple, inputs)) and tuple(tree.output) == tuple(output)
+                    if not rec["compressed"]:
+                        st = tree.contract_stats()
+                        rec["tree_stats"] = {k: st[k] for k in ("flops", "write", "size")}
+                HYPER.append(rec)
+        except Exception:
+            STATS["errors"] += 1
+        return out
+    _search._verif_wrapped = True
+    cls._search = _search
+
+
 def pytest_configure(config):
     install()
+    install_hyper()
 
 
 def pytest_runtest_setup(item):
@@ -192,4 +232,4 @@ def pytest_sessionfinish(session, exitstatus):
     out = os.environ.get("VERIF_TRACE_OUT")
     if out:
         with open(out, "wb") as f:
-            pickle.dump({"cases": CASES, "stats": STATS, "exitstatus": int(exitstatus)}, f)
+            pickle.dump({"cases": CASES, "hyper": HYPER, "stats": STATS, "exitstatus": int(exitstatus)}, f)
